@@ -20,9 +20,19 @@ func (r *verifRig) verifLoggedOnState(kind int, T int) {
 		if n >= 1 {
 			rs.messageStash = map[int]*Message{k1: r.appMessage(k1)}
 		}
+		if n >= 1 && ndBool("stash-first-is-gapfill") {
+			// a kept live gap fill: when its turn comes the expected number moves by more than one
+			g := r.inbound("4", k1)
+			g.Body.SetInt(tagNewSeqNo, k1+2)
+			g.Body.SetBool(tagGapFillFlag, true)
+			rs.messageStash[k1] = g
+			if ndBool("stash-after-gapfill") {
+				rs.messageStash[k1+2] = r.appMessage(k1 + 2)
+			}
+		}
 		if n == 2 {
 			k2 := ndInt("stash-key2", 12-9*verifTier(), 75)
-			verifAssume(k2 > k1)
+			verifAssume(k2 > k1+2)
 			rs.messageStash[k2] = r.appMessage(k2)
 		}
 		if r.s.ResendRequestChunkSize > 0 && ndBool("chunk-in-progress") {
@@ -128,7 +138,7 @@ func VerifHarness_C01_step() {
 	r.checkDeliveries("step")
 	verifAssert(T1 >= T, "step-expected-number-never-moves-backwards")
 	// what was delivered is the event or a stashed message, never anything else, never twice
-	verifAssert(len(r.app.fromApp) <= 3, "step-at-most-event-plus-stash-delivered")
+	verifAssert(len(r.app.fromApp) <= 4, "step-at-most-event-plus-stash-delivered")
 	if len(r.app.fromApp) > 0 {
 		last := r.app.fromApp[len(r.app.fromApp)-1]
 		verifAssert(T1 > last.seq, "step-expected-number-past-every-delivered-message")
